@@ -1,0 +1,76 @@
+//go:build verif
+
+// Contracts for the actor core (event stream C19, scheduler C20, handlers C03..C09). Comment-only //@
+// blocks read by /verif/engine (govc) plus lemma functions.
+
+package actor
+
+// ---------------------------------------------------------------------------------------------
+// ghost outbox: gcount(tells, p) = number of envelopes this goroutine has handed to the mailbox of the
+// actor with path p (Context.tell). What the mailbox does with them is C01/C02/C03.
+// ---------------------------------------------------------------------------------------------
+
+//@ func (*Context).tell
+//@   trusted
+//@   requires recipient != nil
+//@   ghostinc tells(refPath(recipient))
+
+// ---------------------------------------------------------------------------------------------
+// C19 event stream: the two tables are mirror images; every access under es.mu
+// ---------------------------------------------------------------------------------------------
+
+//@ pure sub(es *eventStream, t reflect.Type, p string) bool = t in es.subscribers && p in es.subscribers[t]
+//@ pure rsub(es *eventStream, t reflect.Type, p string) bool = p in es.subscriberTypes && t in es.subscriberTypes[p]
+//@ pure eswf(es *eventStream) bool =
+//@     es.subscribers != nil && es.subscriberTypes != nil &&
+//@     (forall t reflect.Type, p string :: sub(es, t, p) <==> rsub(es, t, p)) &&
+//@     (forall t reflect.Type :: t in es.subscribers ==> es.subscribers[t] != nil) &&
+//@     (forall p string :: p in es.subscriberTypes ==> es.subscriberTypes[p] != nil && exists t reflect.Type :: t in es.subscriberTypes[p]) &&
+//@     (forall t reflect.Type, p string :: sub(es, t, p) ==> es.subscribers[t][p] != nil && refPath(es.subscribers[t][p]) == p) &&
+//@     (forall t1 reflect.Type, t2 reflect.Type :: t1 in es.subscribers && t2 in es.subscribers && t1 != t2 ==> es.subscribers[t1] != es.subscribers[t2]) &&
+//@     (forall p1 string, p2 string :: p1 in es.subscriberTypes && p2 in es.subscriberTypes && p1 != p2 ==> es.subscriberTypes[p1] != es.subscriberTypes[p2])
+
+//@ func (*eventStream).Subscribe
+//@   requires eswf(es) && !held(es.mu) && ctx != nil && event != nil
+//@   modifies es.subscribers[*], es.subscribers[rtype(event)][*], es.subscriberTypes[*], es.subscriberTypes[refPath(ctxRef(ctx))][*]
+//@   ensures  eswf(es)
+//@   ensures  sub(es, rtype(event), refPath(ctxRef(ctx)))
+//@   ensures  forall t reflect.Type, p string :: (t != rtype(event) || p != refPath(ctxRef(ctx))) ==> (sub(es, t, p) <==> old(sub(es, t, p)))
+//@   ensures  old(sub(es, rtype(event), refPath(ctxRef(ctx)))) ==> forall t reflect.Type, p string :: sub(es, t, p) ==> es.subscribers[t][p] == old(es.subscribers[t][p])
+
+//@ func newEventStream
+//@   ensures result != nil && fresh(result) && eswf(result) && forall t reflect.Type, p string :: !sub(result, t, p)
+
+//@ func (*eventStream).Unsubscribe
+//@   requires eswf(es) && !held(es.mu) && ctx != nil && event != nil
+//@   modifies es.subscribers[rtype(event)][*], es.subscriberTypes[*], es.subscriberTypes[refPath(ctxRef(ctx))][*]
+//@   ensures  eswf(es)
+//@   ensures  !sub(es, rtype(event), refPath(ctxRef(ctx)))
+//@   ensures  forall t reflect.Type, p string :: (t != rtype(event) || p != refPath(ctxRef(ctx))) ==> (sub(es, t, p) <==> old(sub(es, t, p)))
+//@   ensures  forall t reflect.Type, p string :: sub(es, t, p) ==> es.subscribers[t][p] == old(es.subscribers[t][p])
+
+//@ func (*eventStream).UnsubscribeAll
+//@   requires eswf(es) && !held(es.mu) && ctx != nil
+//@   modifies es.subscribers[*], es.subscriberTypes[*], anymapof(es.subscribers)
+//@   ensures  eswf(es)
+//@   ensures  forall t reflect.Type :: !sub(es, t, refPath(ctxRef(ctx)))
+//@   ensures  !(refPath(ctxRef(ctx)) in es.subscriberTypes)
+//@   ensures  forall t reflect.Type, p string :: p != refPath(ctxRef(ctx)) ==> (sub(es, t, p) <==> old(sub(es, t, p)))
+//@ loop (*eventStream).UnsubscribeAll#1
+//@   modifies es.subscribers[*], anymapof(es.subscribers)
+//@   invariant es.subscribers != nil && es.subscriberTypes != nil
+//@   invariant forall t reflect.Type :: seen(t) ==> !sub(es, t, subscriberPath)
+//@   invariant forall t reflect.Type :: !seen(t) ==> (sub(es, t, subscriberPath) <==> old(sub(es, t, subscriberPath)))
+//@   invariant forall t reflect.Type, p string :: p != subscriberPath ==> (sub(es, t, p) <==> old(sub(es, t, p)))
+//@   invariant forall t reflect.Type :: t in es.subscribers ==> es.subscribers[t] != nil
+//@   invariant forall t reflect.Type, p string :: sub(es, t, p) ==> es.subscribers[t][p] != nil && refPath(es.subscribers[t][p]) == p
+//@   invariant forall t1 reflect.Type, t2 reflect.Type :: t1 in es.subscribers && t2 in es.subscribers && t1 != t2 ==> es.subscribers[t1] != es.subscribers[t2]
+
+// Publish: exactly one tell to every actor subscribed to the event's type at the (read-locked) snapshot,
+// none to anybody else
+//@ func (*eventStream).Publish
+//@   requires eswf(es) && !held(es.mu) && ctx != nil && event != nil && es.system != nil && es.system.Context != nil
+//@   ensures  forall p string :: gcount(tells, p) == old(gcount(tells, p)) + (old(sub(es, rtype(event), p)) ? 1 : 0)
+//@ loop (*eventStream).Publish#1
+//@   invariant forall p string :: gcount(tells, p) == old(gcount(tells, p)) + (seen(p) ? 1 : 0)
+//@   invariant forall p string :: seen(p) ==> p in subscribers
